@@ -319,7 +319,7 @@ func (vfs *MemFS) Lchown(name string, uid, gid int) error {
 
 // Link creates newname as a hard link to the oldname file.
 // If there is an error, it will be of type *LinkError.
-func (vfs *MemFS) Link(oldname, newname string) error {
+func (vfs *MemFS) Link(oldname, newname string) (err error) {
 	const op = "link"
 
 	_, oChild, _, oerr := vfs.searchNode(oldname, slmLstat)
@@ -336,6 +336,15 @@ func (vfs *MemFS) Link(oldname, newname string) error {
 		return &os.LinkError{Op: op, Old: oldname, New: newname, Err: nerr}
 	}
 
+	// Deferred before the lock is taken, so that the call starts again after it is released.
+	again := false
+
+	defer func() {
+		if again {
+			err = vfs.Link(oldname, newname)
+		}
+	}()
+
 	avfs.VerifBeforeLock(&nParent.mu, true)
 	nParent.mu.Lock()
 	defer nParent.mu.Unlock()
@@ -344,24 +353,22 @@ func (vfs *MemFS) Link(oldname, newname string) error {
 		return &os.LinkError{Op: op, Old: oldname, New: newname, Err: vfs.err.PermDenied}
 	}
 
-	// The new name may have been created since the directory was walked without a lock held.
+	// The new name may have been created since the directory was walked without a lock held,
+	// possibly by moving the old one : both paths are resolved again.
 	if nParent.children[pi.Part()] != nil {
-		err := vfs.err.FileExists
-		if vfs.OSType() == avfs.OsWindows {
-			err = avfs.ErrWinAlreadyExists
-		}
+		again = true
 
-		return &os.LinkError{Op: op, Old: oldname, New: newname, Err: err}
+		return nil
 	}
 
 	c, ok := oChild.(*fileNode)
 	if !ok {
-		err := error(avfs.ErrOpNotPermitted)
+		lerr := error(avfs.ErrOpNotPermitted)
 		if vfs.OSType() == avfs.OsWindows {
-			err = avfs.ErrWinAccessDenied
+			lerr = avfs.ErrWinAccessDenied
 		}
 
-		return &os.LinkError{Op: op, Old: oldname, New: newname, Err: err}
+		return &os.LinkError{Op: op, Old: oldname, New: newname, Err: lerr}
 	}
 
 	avfs.VerifBeforeLock(&c.mu, true)
